@@ -410,7 +410,7 @@ func main() {
 		return
 	}
 	rep = report.New("C14", tier, "model_checking")
-	rep.Rule = "E1: 15 polygonal shapes (boxes, triangles, L, C, pentagon, holes in both windings and closed spelling, multi-polygons, island in hole) as Polygon / MultiPolygon / *Bounds x every simple open polyline of 2 and 3 vertices over the lattice (i+.37, j+.41), i,j in {-1,1,3,5,7} (thorough: -1..7), plus two-member multi-line strings; the same pairs again with both operands rotated by 30 degrees and scaled by 1.7 (irrational coordinates, lengths scale by 1.7); pairs not in general position (exact test) or with a piece shorter than 1e-7 are skipped and counted. Oracle: reference inside length from exact crossing tests + even-odd classification of every piece; Length(result) equal (rel 1e-9); every result vertex within 1e-9 of the line and inside or on the polygon; empty iff the reference length is 0; the polygon argument is not modified; clip sequences on one shared polygon value, also after the value has been moved in place (history). Non-trivial = lines partly inside."
+	rep.Rule = "E1: 15 polygonal shapes (boxes, triangles, L, C, pentagon, holes in both windings and closed spelling, multi-polygons, island in hole) as Polygon / MultiPolygon / *Bounds x every simple open polyline of 2 and 3 vertices over the lattice (i+.37, j+.41), i,j in {-1,1,3,5,7} (thorough: -1..7), plus two-member multi-line strings; every simple polyline of 4 and 5 vertices over the coarse lattice {-1,3,7}^2 (detours outside the bounding box; 5 vertices against 6 shapes, thorough all); the same pairs again with both operands rotated by 30 degrees and scaled by 1.7 (irrational coordinates, lengths scale by 1.7); pairs not in general position (exact test) or with a piece shorter than 1e-7 are skipped and counted. Oracle: reference inside length from exact crossing tests + even-odd classification of every piece; Length(result) equal (rel 1e-9); every result vertex within 1e-9 of the line and inside or on the polygon; empty iff the reference length is 0; the polygon argument is not modified; clip sequences on one shared polygon value, also after the value has been moved in place (history). Non-trivial = lines partly inside."
 	var lattice []exact.Pt
 	step := int64(2)
 	if tier == "thorough" {
@@ -472,6 +472,54 @@ func main() {
 			rep.Sample(8, fmt.Sprintf("line %v against all shapes/casts", lines[i]))
 		}
 	})
+	// detours: every simple polyline of 4 and 5 vertices over the coarse lattice
+	// {-1,3,7}^2 (most of it outside the shapes' bounding boxes): stretches of
+	// several segments that stay outside, round a corner and come back
+	{
+		var l9 []exact.Pt
+		for _, i := range []int64{-1, 3, 7} {
+			for _, j := range []int64{-1, 3, 7} {
+				l9 = append(l9, exact.Pt{X: i*scale + 370, Y: j*scale + 410})
+			}
+		}
+		var long [][]exact.Pt
+		for nv := 4; nv <= 5; nv++ {
+			total := 1
+			for i := 0; i < nv; i++ {
+				total *= len(l9)
+			}
+			for idx := 0; idx < total; idx++ {
+				l := make([]exact.Pt, nv)
+				t := idx
+				ok := true
+				for i := range l {
+					l[i] = l9[t%len(l9)]
+					t /= len(l9)
+					if i > 0 && l[i] == l[i-1] {
+						ok = false
+					}
+				}
+				if ok && simpleLine(l) {
+					long = append(long, l)
+				}
+			}
+		}
+		rep.Set("detour_lines", len(long))
+		five := map[int]bool{0: true, 1: true, 2: true, 5: true, 7: true, 10: true}
+		enum.Parallel(len(long), rep.Expired, func(i int) {
+			for si, s := range cat {
+				if len(long[i]) == 5 && tier != "thorough" && !five[si] {
+					continue
+				}
+				for _, ct := range casts(s) {
+					c := Case{Shape: si, Cast: ct, Lines: [][]exact.Pt{long[i]}}
+					if sym, det := runCase(c); sym != "" {
+						rep.Violation(fmt.Sprintf("LineString.Clip|%s|%s|detour|%s", ct, s.Name, sym), map[string]interface{}{"case": c, "observed": det})
+					}
+				}
+			}
+		})
+	}
 	// sequences of clips on one shared polygon value (history: the argument must stay intact)
 	for si, s := range cat {
 		for _, ct := range casts(s) {
